@@ -320,7 +320,7 @@ func run(c *vf.Ctx) {
 	sort.Strings(branches)
 	g.Run(base, "checkout", "-q", "-f", branches[0])
 
-	nseq := c.N(80, 1500)
+	nseq := c.N(80, 400)
 	for i := 0; i < nseq; i++ {
 		r := c.Rand("seq", i)
 		steps := genSeq(r, branches, ids)
@@ -393,7 +393,7 @@ func run(c *vf.Ctx) {
 		for k := 0; k < K; k++ {
 			ks = append(ks, k)
 		}
-		if maxK := c.N(16, 200); len(ks) > maxK {
+		if maxK := c.N(16, 60); len(ks) > maxK {
 			stepK := float64(len(ks)) / float64(maxK)
 			var keep []int
 			for j := 0; j < maxK; j++ {
@@ -465,11 +465,11 @@ func run(c *vf.Ctx) {
 	}
 	c.Extra("git_invocations", gitx.Calls.Load())
 	c.Floor("sequences", c.SeenCount("step_kinds"), 12)
-	c.Floor("invariant checks after fault-free steps", c.Counter("invariant_checks"), c.N(250, 4000))
-	c.Floor("faulted steps", c.Counter("faulted_steps"), c.N(600, 15000))
-	c.Floor("faults actually injected", c.Counter("faults_injected"), c.N(500, 12000))
-	c.Floor("faulted steps that returned an error", c.Counter("faulted_steps_that_returned_error"), c.N(150, 4000))
-	c.Floor("external rewrites of the index by git", c.Counter("external_rewrites"), c.N(25, 400))
+	c.Floor("invariant checks after fault-free steps", c.Counter("invariant_checks"), c.N(250, 1100))
+	c.Floor("faulted steps", c.Counter("faulted_steps"), c.N(600, 5000))
+	c.Floor("faults actually injected", c.Counter("faults_injected"), c.N(500, 4000))
+	c.Floor("faulted steps that returned an error", c.Counter("faulted_steps_that_returned_error"), c.N(150, 1200))
+	c.Floor("external rewrites of the index by git", c.Counter("external_rewrites"), c.N(25, 100))
 	c.Assume("external rewrites are done by real git commands, which change the index's size or mtime (the property's stated domain)")
 	c.Assume("fault = EIO returned once by one fs operation on .git/index or a worktree path during the last step")
 }
